@@ -131,6 +131,20 @@ func genIsoScript(s *Sim) *isoScript {
 		lateStream = len(sc.Streams)
 		sc.Streams = append(sc.Streams, isoStream{Up: true, QoS: sp.QoS, Spec: sp, Late: true})
 	}
+	// an OpenUpstream that the broker never answers and whose caller gives up (short deadline): the
+	// streams that are already open must not notice
+	unanswered := -1
+	if t.Bool("unanswered-open", 1, 4) {
+		sp := upSpec{QoS: message.QoSReliable, Policy: "immediate", CloseTimeout: 5 * time.Second}
+		unanswered = len(sc.Streams)
+		sc.Streams = append(sc.Streams, isoStream{Up: true, QoS: sp.QoS, Spec: sp, Late: true})
+	}
+	// a downstream whose consumer stops reading while the broker keeps sending (far beyond the
+	// documented buffering): that stream may lose chunks, its neighbours may not notice
+	flood := -1
+	if nDown > 0 && t.Bool("flood-one-downstream", 1, 12) {
+		flood = nUp + t.Choose("flood-which", nDown)
+	}
 	sc.Focus = t.Choose("focus", len(sc.Streams))
 	n := Pick(t, "len", 40, 20, 80)
 	if s.Tier == "thorough" {
@@ -142,6 +156,12 @@ func genIsoScript(s *Sim) *isoScript {
 		if slowClose >= 0 && i == n/3 {
 			sc.Acts = append(sc.Acts, isoAct{Kind: "slow-close", Stream: -1, Target: slowClose, ID: t.Choose("w-id", 3)})
 			sc.Acts = append(sc.Acts, isoAct{Kind: "open-late", Stream: lateStream})
+		}
+		if flood >= 0 && i == n/4 {
+			sc.Acts = append(sc.Acts, isoAct{Kind: "flood", Stream: flood})
+		}
+		if unanswered >= 0 && i == n/2 {
+			sc.Acts = append(sc.Acts, isoAct{Kind: "unanswered-open", Stream: -1, Target: unanswered})
 		}
 		st := t.Choose("a-stream", len(sc.Streams))
 		up := sc.Streams[st].Up
@@ -269,6 +289,40 @@ func execIsoScript(s *Sim, sc *isoScript, only int) map[int]*isoObs {
 			}
 			y.flushLinks()
 			s.Broker.Cfg.AutoReq, s.Broker.Cfg.AutoAck = true, true
+		case "unanswered-open":
+			// the slow-broker second is an event of the environment (kept in every projection); only
+			// the open call itself belongs to the target stream
+			if !s.Idle(0) || len(y.aliveLinks()) == 0 {
+				break
+			}
+			s.Broker.Cfg.AutoReq = false
+			tti := 1 + a.Target
+			if in(a.Target) && s.Idle(tti) {
+				sp := sc.Streams[a.Target].Spec
+				sp.Session = fmt.Sprintf("iso-%d", a.Target)
+				op := y.openUpOp(sp)
+				op.CtxKind, op.Timeout = "deadline", 300*time.Millisecond
+				s.Start(tti, op)
+				s.Stat("env.open-never-answered")
+			}
+			for k := 0; k < 10; k++ {
+				y.Advance(100 * time.Millisecond)
+			}
+			for _, p := range append([]*pend(nil), s.Broker.Pend...) {
+				if p.Kind == "resp" && strings.HasPrefix(p.Desc, "upstream-open") {
+					if r, ok := p.Msg.(*message.UpstreamOpenResponse); ok && r != nil && in(a.Target) {
+						if u := s.Broker.upByID(r.AssignedStreamID); u != nil && u.Open != nil && u.Open.SessionID == fmt.Sprintf("iso-%d", a.Target) {
+							s.Broker.Drop(p)
+							continue
+						}
+					}
+				}
+			}
+			for len(s.Broker.Pend) > 0 {
+				s.Broker.Release(s.Broker.Pend[0], nil)
+			}
+			y.flushLinks()
+			s.Broker.Cfg.AutoReq = true
 		case "open-late":
 			if ups[a.Stream] != nil || !s.Idle(0) || len(y.aliveLinks()) == 0 {
 				break
@@ -306,6 +360,22 @@ func execIsoScript(s *Sim, sc *isoScript, only int) map[int]*isoObs {
 				g := sentGroup{ID: id, Points: []pt{{ID: id, Elapsed: time.Duration(n) * time.Microsecond, Payload: fmt.Sprintf("d%d|%s|%d", a.Stream, id.Name, n)}}}
 				s.Broker.EmitChunk(h.B, rr, []sentGroup{g}, true, false)
 			}
+		case "flood":
+			h := downs[a.Stream]
+			if h == nil || h.B == nil || h.B.link == nil || !h.B.link.Alive() || closedByApp[a.Stream] {
+				break
+			}
+			s.Stat("env.downstream-flooded-while-nobody-reads")
+			for k := 0; k < 2600; k++ {
+				emitN[a.Stream]++
+				n := emitN[a.Stream]
+				id := dataID(0)
+				rr := &remoteUp{Info: message.UpstreamInfo{SessionID: fmt.Sprintf("sess-for-%d-%d", a.Stream, 0), SourceNodeID: s.Broker.Remote(0).Info.SourceNodeID, StreamID: mkUUID(0xE1, a.Stream*10)}, Seq: uint32(n - 1)}
+				g := sentGroup{ID: id, Points: []pt{{ID: id, Elapsed: time.Duration(n) * time.Microsecond, Payload: fmt.Sprintf("d%d|%s|%d", a.Stream, id.Name, n)}}}
+				s.Broker.EmitChunk(h.B, rr, []sentGroup{g}, true, false)
+			}
+			// (delivered by the next pump/advance like every other emission: delivering here would also
+			// deliver the neighbours' frames in flight and change what a later cut loses)
 		case "read":
 			if h := downs[a.Stream]; s.Idle(ti) && !closedByApp[a.Stream] {
 				op := y.readOp(h)
